@@ -19,10 +19,10 @@ open(p,'w').write(s)
 PY
 rc=$?
 if [ $rc -ne 0 ]; then rm -rf $D; exit $rc; fi
-(cd $D && GOFLAGS=-mod=mod GOPROXY=off go build ./... ) || { echo "MUTANT DOES NOT BUILD"; rm -rf $D; exit 4; }
+mkdir -p $D.verif; cp /verif/known_findings.json $D.verif/; (cd $D && GOFLAGS=-mod=mod GOPROXY=off go build ./... ) || { echo "MUTANT DOES NOT BUILD"; rm -rf $D; exit 4; }
 if [ -n "$RULE" ]; then
-/verif/bin/redactcheck -repo $D -verif /tmp/mutverif -p $PROP -rule $RULE | grep -v '^  C' | head -${LINES_MAX:-12}
+/verif/bin/redactcheck -repo $D -verif $D.verif -p $PROP -rule $RULE | grep -v '^  C' | head -${LINES_MAX:-12}
 else
-/verif/bin/redactcheck -repo $D -verif /tmp/mutverif -p $PROP | grep -v '^  C' | head -${LINES_MAX:-12}
+/verif/bin/redactcheck -repo $D -verif $D.verif -p $PROP | grep -v '^  C' | head -${LINES_MAX:-12}
 fi
-rm -rf $D
+rm -rf $D $D.verif
